@@ -234,6 +234,12 @@ func (sc *scenario) runZeroRTT() (out *outcome) {
 		cs := c2.ConnectionState()
 		out.cv, out.calpn, out.c0 = uint32(cs.Version), cs.TLS.NegotiatedProtocol, cs.Used0RTT
 		z.resumed = cs.TLS.DidResume
+		z.left0, z.leftBytes = -1, -1
+		if z.hs == "complete" {
+			// what loss recovery still tracks of the 0-RTT flight right after the handshake
+			time.Sleep(time.Microsecond)
+			z.left0, z.leftBytes = c2.VerifZeroRTTLedger()
+		}
 		if z.hs == "complete" && z.early && !cs.Used0RTT {
 			// rejected: the API says so, and only the application can resend
 			if sB != nil {
@@ -339,6 +345,8 @@ type zres struct {
 	nResend  int
 	nOther   int
 	replayed int // number of server connections whose application read the 0-RTT payload
+	left0     int
+	leftBytes int64
 }
 
 func (z *zres) txt() string {
@@ -346,8 +354,8 @@ func (z *zres) txt() string {
 	if hs == "" {
 		hs = "-"
 	}
-	return fmt.Sprintf("early=%s resumed=%s write=%s hs=%s after=%s next=%s sconns=%d npayload=%d nresend=%d nother=%d pconns=%d",
-		boolTxt(z.early), boolTxt(z.resumed), z.write, hs, z.after, z.next, z.conns, z.nPayload, z.nResend, z.nOther, z.replayed)
+	return fmt.Sprintf("early=%s resumed=%s write=%s hs=%s after=%s next=%s sconns=%d npayload=%d nresend=%d nother=%d pconns=%d left0=%d leftbytes=%d",
+		boolTxt(z.early), boolTxt(z.resumed), z.write, hs, z.after, z.next, z.conns, z.nPayload, z.nResend, z.nOther, z.replayed, z.left0, z.leftBytes)
 }
 
 func errClass0(err error) string {
